@@ -351,6 +351,31 @@ def cases(seed, tier):
     mixed.append(("id:11", "".join(sorted(by_aa(11)))))     # uniform weights: every synonym must be emitted, each equally often
     for spec, enc in mixed:
         yield ["freqmix", spec, "".join(r.sample(enc * reps, reps * len(enc))), str(calls)]
+    # ---- counts PER POSITION of a short protein (statistical): a choice that depends on the position (first residue gets the
+    # most used codon ...) is invisible to counts pooled per letter; 10^4 calls, every position judged on its own
+    pcalls = "10000"
+    yield ["pos", "id:1", "LLL", pcalls]
+    yield ["pos", "id:%d" % r.choice([2, 5, 13, 21]), "MML", pcalls]
+    yield ["pos", "id:11", "MKLSR*", pcalls]
+    npos = 0
+    for _ in range(300):
+        if npos >= (3 if not thorough else 20):
+            break
+        i = r.choice(IDS)
+        cds = biased_cds(r, i, r.randint(300, 1500))
+        ew = eligible_weights(i, cds)
+        three = [a for a, el in ew.items() if len(el) >= 3 and len(set(w for _, w in el)) >= 2]
+        if three:
+            npos += 1
+            a = r.choice(three)
+            yield ["pos", "rw:%d:%s" % (i, cds), a * 3, pcalls]
+            if npos == 1:
+                yield ["pos", "rw:%d:%s" % (i, cds), randword(r, "".join(ew), 10), pcalls]
+    for i in r.sample([2, 3, 5, 13, 21], 2 if not thorough else 5):      # M first, with ATA and ATG both eligible and unequal
+        cds = biased_cds(r, i, 400)
+        cds = "".join(c for c in (cds[j:j + 3] for j in range(0, len(cds) - 2, 3)) if c not in ("ATG", "ATA")) + "ATA" * 30 + "ATG" * 11
+        enc = encodable_letters(i, cds)
+        yield ["pos", "rw:%d:%s" % (i, cds), "M" + randword(r, enc, 2), pcalls]
     # ---- adjacent picks are independent: codon-pair counts for a two-letter repeat (statistical)
     pair_units = ["KL", "KK"] if not thorough else ["KL", "KK", "FF", "GG", "PP", "LS", "RR", "AV", "SS", "TG"]
     for u in pair_units:
@@ -389,7 +414,8 @@ LEVEL_NOTE = ("Trusted: Lean kernel; harness; exact-vs-float share test (assumed
               "math/rand (assumed); Go map / sort.Slice semantics as modelled. "
               "False-alarm probability of the statistical cases on a correct implementation, per run, all cases together: union cases give "
               "every letter >= 300 picks (480 in the per-table cases), an eligible codon has share > 1/10, so a codon is missed with "
-              "probability < 0.9^300 = 1.9e-14, times < 2*10^4 (letter, codon) pairs per run: < 4e-10; every frequency / pair count is a "
+              "probability < 0.9^300 = 1.9e-14, times < 2*10^4 (letter, codon) pairs per run: < 4e-10; every frequency / pair / per-position count (pos cases: 10^4 calls, share > 1/10, so "
+              "sigma >= 30; <= 10 positions x 9 codons x < 30 cases per run) is a "
               "binomial with standard deviation >= 20 judged with the band 8 sigma + 1: by Bernstein's inequality each band fails with "
               "probability < 2*exp(-64/(2+16/60)) = 1.1e-12, times < 10^4 bands per run (thorough): < 2e-8. Total < 10^-6 per run. "
               "(Position-0 cases are opt cases, judged run by run; they carry no union demand.)")
